@@ -2,6 +2,7 @@ package wire
 
 import (
 	"math/big"
+	"strings"
 
 	"go.dedis.ch/kyber/v4"
 	"go.dedis.ch/kyber/v4/group/edwards25519"
@@ -29,6 +30,57 @@ type grp struct {
 	suite    pairing.Suite // for GT value construction
 	which    int           // 1,2,3 = G1,G2,GT of a pairing suite
 	slow     bool
+	// field model of encodings made of big-endian coordinates of clen bytes after a prefix
+	// (P-256, BN G1/G2/GT): used to build non-canonical "coordinate + modulus" encodings;
+	// wa, wb: short Weierstrass coefficients when the encoding is (x, y) of such a curve
+	fp, wa, wb   *big.Int
+	prefix, clen int
+}
+
+// nonCanonical returns encodings that differ from enc by adding the field modulus (once, twice)
+// to one coordinate, where the sum still fits the coordinate's width; for (x, y) curves it adds
+// the same variants of a point with a very small x (for P-256 only one point in 2^32 has a
+// coordinate small enough for the sum to fit, so a random point never exercises the path).
+func nonCanonical(gr *grp, enc []byte) [][]byte {
+	if gr.fp == nil || gr.clen == 0 || len(enc) < gr.prefix+gr.clen {
+		return nil
+	}
+	var out [][]byte
+	variants := func(e []byte) {
+		body := e[gr.prefix:]
+		for c := 0; (c+1)*gr.clen <= len(body); c++ {
+			v := new(big.Int).SetBytes(body[c*gr.clen : (c+1)*gr.clen])
+			for k := 1; k <= 2; k++ {
+				v.Add(v, gr.fp)
+				if v.BitLen() > 8*gr.clen {
+					break
+				}
+				b := append([]byte{}, e...)
+				v.FillBytes(b[gr.prefix+c*gr.clen : gr.prefix+(c+1)*gr.clen])
+				out = append(out, b)
+			}
+		}
+	}
+	variants(enc)
+	if gr.wb != nil && new(big.Int).And(gr.fp, big.NewInt(3)).Int64() == 3 {
+		e := new(big.Int).Rsh(new(big.Int).Add(gr.fp, big.NewInt(1)), 2)
+		for x, found := int64(1), 0; x < 64 && found < 2; x++ {
+			X := big.NewInt(x)
+			rhs := new(big.Int).Exp(X, big.NewInt(3), gr.fp)
+			rhs.Add(rhs, new(big.Int).Mul(gr.wa, X)).Add(rhs, gr.wb).Mod(rhs, gr.fp)
+			y := new(big.Int).Exp(rhs, e, gr.fp)
+			if new(big.Int).Exp(y, big.NewInt(2), gr.fp).Cmp(rhs) != 0 {
+				continue
+			}
+			found++
+			b := append([]byte{}, enc[:gr.prefix]...)
+			b = append(b, X.FillBytes(make([]byte, gr.clen))...)
+			b = append(b, y.FillBytes(make([]byte, gr.clen))...)
+			out = append(out, b) // the small-x point itself (valid)
+			variants(b)
+		}
+	}
+	return out
 }
 
 func bi(s string) *big.Int { v, _ := new(big.Int).SetString(s, 10); return v }
@@ -179,7 +231,7 @@ func allGroups() []*grp {
 	gs = append(gs, &grp{name: "vartime-proj-e382", g: new(edwards25519vartime.ProjectiveCurve).Init(edwards25519vartime.ParamE382(), false), slow: true})
 	gs = append(gs, &grp{name: "vartime-ext-41417", g: new(edwards25519vartime.ExtendedCurve).InitCurve(edwards25519vartime.Param41417(), false), slow: true})
 	gs = append(gs, &grp{name: "vartime-ext-e521", g: new(edwards25519vartime.ExtendedCurve).InitCurve(edwards25519vartime.ParamE521(), false), slow: true})
-	gs = append(gs, &grp{name: "p256", g: p256.NewBlakeSHA256P256(), member: memberWeierstrass(pP256, big.NewInt(-3), bP256, 1), order: nP256})
+	gs = append(gs, &grp{name: "p256", g: p256.NewBlakeSHA256P256(), member: memberWeierstrass(pP256, big.NewInt(-3), bP256, 1), order: nP256, fp: pP256, wa: big.NewInt(-3), wb: bP256, prefix: 1, clen: 32})
 	gs = append(gs, &grp{name: "qr512", g: p256.NewBlakeSHA256QR512(), subgroup: true})
 	add := func(prefix string, s pairing.Suite, m1, m2 func([]byte) (bool, bool), order *big.Int, sub bool) {
 		gs = append(gs, &grp{name: prefix + "-g1", g: s.G1(), member: m1, order: order, subgroup: sub, suite: s, which: 1})
@@ -188,6 +240,21 @@ func allGroups() []*grp {
 	}
 	add("bn256", bn256.NewSuite(), memberWeierstrass(pBN256, big.NewInt(0), big.NewInt(3), 0), memberTwist(pBN256, 3), nBN256, false)
 	add("bn254", bn254.NewSuite(), memberWeierstrass(pBN254, big.NewInt(0), big.NewInt(3), 0), memberTwist(pBN254, 9), nBN254, false)
+	for _, gr := range gs {
+		var fp *big.Int
+		switch {
+		case strings.HasPrefix(gr.name, "bn256-"):
+			fp = pBN256
+		case strings.HasPrefix(gr.name, "bn254-"):
+			fp = pBN254
+		default:
+			continue
+		}
+		gr.fp, gr.clen = fp, 32
+		if gr.which == 1 {
+			gr.wa, gr.wb = big.NewInt(0), big.NewInt(3)
+		}
+	}
 	add("bls-kilic", kilic.NewBLS12381Suite(), nil, nil, rBLS, true)
 	add("bls-circl", circl.NewSuite(), nil, nil, rBLS, true)
 	add("bls-gnark", gnark.NewSuite(), nil, nil, rBLS, true)
